@@ -95,6 +95,7 @@ func corpus(r *h.Run) {
 			add(base, c)
 			if op == "write" {
 				add(base, Call{Op: op, P: p})
+				add(base, Call{Op: op, P: p, Data: "x"}, c1("read", p)) // shorter than what is there
 			}
 			if op == "lsrec" {
 				add(base, Call{Op: op, P: p})
